@@ -303,16 +303,17 @@ class Workspace:
         elif p.exists():
             p.unlink()
 
-    def library_db(self, plan):
+    def library_db(self, plan, cwd=None):
         """`TagDatabase(**plan)` — what the plan prescribes; cached per distinct keyword set."""
-        key = json.dumps({k: plan[k] for k in ("directory", "ignore_timestamps", "cleanup_strategy", "skip_pattern",
-                                                "glob_pattern", "taxonomy_path")}, sort_keys=True)
+        cwd = cwd or self.root
+        key = str(cwd) + json.dumps({k: plan[k] for k in ("directory", "ignore_timestamps", "cleanup_strategy", "skip_pattern",
+                                                           "glob_pattern", "taxonomy_path")}, sort_keys=True)
         tx = plan["taxonomy_path"]
         if tx is not None:
-            full = (self.root / tx) if not os.path.isabs(tx) else Path(tx)
+            full = (cwd / tx) if not os.path.isabs(tx) else Path(tx)
             key += hashlib.blake2b(full.read_bytes() if full.is_file() else b"<missing>", digest_size=8).hexdigest()
         if key not in self.lib_cache:
-            with in_dir(self.root), quiet():
+            with in_dir(cwd), quiet():
                 try:
                     db = self.make_db.TagDatabase(
                         directory=Path(plan["directory"]),
@@ -353,37 +354,87 @@ def argv_of(rng, options, positional):
 
 # ------------------------------------------------------------------------------- collect
 
+def collect_fixed_cases(ws):
+    """Always run, first: explicit RELATIVE and ABSOLUTE `-t` paths × DIRECTORY given as a nested relative path,
+    an absolute path and `.`/`..`-relative forms — the current directory being different from DIRECTORY's parent —
+    with and without a `taxonomy.tsv` next to DIRECTORY, and with a decoy of the same name next to DIRECTORY."""
+    root = ws.root
+    cases = []
+    for cwd, directories, taxos in (
+        (root, ["progs/sub", "./progs/sub", "deep/../progs/sub", str(root / "progs" / "sub"), "progs"],
+         ["mytaxo.tsv", "./mytaxo.tsv", "deep/../mytaxo.tsv", str(root / "mytaxo.tsv"), None]),
+        (root / "deep", ["../progs", "../progs/sub", "./../progs", str(root / "progs")],
+         ["../mytaxo.tsv", str(root / "mytaxo.tsv"), None]),
+        (root / "progs", ["sub", ".", "../progs"], ["../mytaxo.tsv", None]),
+    ):
+        for d in directories:
+            for t in taxos:
+                for sibling in (False, True):
+                    opts = {"--no_timestamp": True, "--output": os.path.relpath(root / "out" / "fixed.json", cwd)}
+                    if t is not None:
+                        opts["--taxonomy"] = t
+                    cases.append({"cwd": cwd, "directory": d, "opts": opts, "sibling": sibling, "decoy": False})
+    # a file with the name of the explicit taxonomy next to DIRECTORY must not be preferred to the one named
+    cases.append({"cwd": root, "directory": "progs/sub", "opts": {"--taxonomy": "mytaxo.tsv", "--no_timestamp": True},
+                  "sibling": False, "decoy": True})
+    # relative -o from another directory
+    cases.append({"cwd": root / "deep", "directory": "../progs", "opts": {"--output": "../out/rel.json", "--no_timestamp": True},
+                  "sibling": True, "decoy": False})
+    cases.append({"cwd": root / "deep", "directory": "../progs/sub", "opts": {"--no_timestamp": True}, "sibling": True, "decoy": False})
+    return cases
+
+
 def stream_collect(ctx, drv, cli, ws, n):
     import paroxython.cli_collect as cc
 
-    for i in range(n):
+    fixed = collect_fixed_cases(ws)
+    if ctx.tier == "quick":  # the whole matrix in thorough; in quick: every (cwd, DIRECTORY, -t) once, sibling alternating
+        fixed = [c for k, c in enumerate(fixed) if c["decoy"] or "rel.json" in str(c["opts"].get("--output")) or (k // 2 + k) % 2 == 0]
+    for i in range(len(fixed) + n):
         r = ctx.rng
-        ws.set_sibling_taxonomy(r.random() < 0.5)
-        directory = r.choice(["progs", "progs", "./progs", "progs/", str(ws.root / "progs"), "progs/sub", "out/../progs",
-                              "nodir", "mytaxo.tsv", "deep/../progs/sub"])
-        opts = {}
-        if r.random() < 0.45:
-            opts["--taxonomy"] = r.choice(["mytaxo.tsv", "mytaxo.tsv", "./mytaxo.tsv", ""])
-        if r.random() < 0.6:
-            opts["--output"] = r.choice(["out/x.json", "out/y.sqlite", "out/z.sql", "out/w.txt", "out/v.JSON", "x.json",
-                                         "out/json", str(ws.root / "out" / "abs.json"), "out/a.sql.json"])
-        if r.random() < 0.4:
-            opts["--cleanup"] = r.choice(["full", "none", "other"])
-        if r.random() < 0.4:
-            opts["--skip"] = r.choice([r"b.*", r".*", r"c\.py", r"(__init__|setup)\.py", r"sub/.*"])
-        if r.random() < 0.4:
-            opts["--glob"] = r.choice(["*.py", "sub/*.py", "**/[ab]*.py", "**/*.py"])
-        if r.random() < 0.5:
-            opts["--no_timestamp"] = True
+        for stale in list(ws.root.rglob("taxonomy.tsv")) + [ws.root / "progs" / "mytaxo.tsv"]:
+            if stale.exists():
+                stale.unlink()
+        if i < len(fixed):
+            case = fixed[i]
+            cwd, directory, opts = case["cwd"], case["directory"], dict(case["opts"])
+            parent = Path(os.path.normpath(cwd / directory)).parent
+            if case["sibling"]:
+                (parent / "taxonomy.tsv").write_text(SIBLING_TAXONOMY)
+            if case["decoy"]:
+                (parent / "mytaxo.tsv").write_text(SIBLING_TAXONOMY)
+            ctx.dist("collect:fixed-matrix")
+        else:
+            cwd = ws.root
+            ws.set_sibling_taxonomy(r.random() < 0.5)
+            directory = r.choice(["progs", "progs", "./progs", "progs/", str(ws.root / "progs"), "progs/sub", "out/../progs",
+                                  "nodir", "mytaxo.tsv", "deep/../progs/sub"])
+            if directory.endswith("sub") and r.random() < 0.5:
+                (ws.root / "progs" / "taxonomy.tsv").write_text(SIBLING_TAXONOMY)
+            opts = {}
+            if r.random() < 0.45:
+                opts["--taxonomy"] = r.choice(["mytaxo.tsv", "mytaxo.tsv", "./mytaxo.tsv", "", str(ws.root / "mytaxo.tsv")])
+            if r.random() < 0.6:
+                opts["--output"] = r.choice(["out/x.json", "out/y.sqlite", "out/z.sql", "out/w.txt", "out/v.JSON", "x.json",
+                                             "out/json", str(ws.root / "out" / "abs.json"), "out/a.sql.json"])
+            if r.random() < 0.4:
+                opts["--cleanup"] = r.choice(["full", "none", "other"])
+            if r.random() < 0.4:
+                opts["--skip"] = r.choice([r"b.*", r".*", r"c\.py", r"(__init__|setup)\.py", r"sub/.*"])
+            if r.random() < 0.4:
+                opts["--glob"] = r.choice(["*.py", "sub/*.py", "**/[ab]*.py", "**/*.py"])
+            if r.random() < 0.5:
+                opts["--no_timestamp"] = True
+        sibling_files = sorted(os.path.relpath(p, ws.root) for p in ws.root.rglob("taxonomy.tsv"))
         argv = ["collect"] + argv_of(r, opts, directory)
         args = docopt_args(cc, "collect", argv[1:])
-        model = drv.call("c18.model.collect", args=args, world=world_of(ws.root, ws.root))
+        model = drv.call("c18.model.collect", args=args, world=world_of(ws.root, cwd))
         before = snapshot(ws.root)
-        impl = run_cli(cli, argv, ws.root)
+        impl = run_cli(cli, argv, cwd)
         after = snapshot(ws.root)
         written = sorted(k for k in after if before.get(k) != after[k])
-        nontrivial = "plan" in model and (bool(opts.get("--taxonomy")) or "--output" in opts or (ws.root / "taxonomy.tsv").exists())
-        ctx.count("collect", json.dumps([argv, (ws.root / "taxonomy.tsv").exists()]), nontrivial=nontrivial)
+        nontrivial = "plan" in model and (bool(opts.get("--taxonomy")) or "--output" in opts or bool(sibling_files))
+        ctx.count("collect", json.dumps([argv, str(cwd), sibling_files]), nontrivial=nontrivial)
         problem = None
         expected = None
         if "exit" in model:
@@ -396,7 +447,7 @@ def stream_collect(ctx, drv, cli, ws, n):
             ctx.dist(f"collect:out:{kind}")
             ctx.dist("collect:taxonomy:" + ("bundled" if plan["taxonomy_path"] is None else
                                           "explicit" if opts.get("--taxonomy") else "sibling"))
-            lib = ws.library_db(plan)
+            lib = ws.library_db(plan, cwd)
             if "exc" in lib:
                 ctx.dist(f"collect:library-raises:{lib['exc']}")
                 if impl["exc"] != lib["exc"] and not (impl["exit"] not in (None, 0)):
@@ -404,7 +455,7 @@ def stream_collect(ctx, drv, cli, ws, n):
             elif impl["exit"] not in (None, 0) or impl["exc"]:
                 problem = f"the command stopped ({impl['exit'] or impl['exc']}) where the plan runs"
             else:
-                target = None if path is None else str((ws.root / path) if not os.path.isabs(path) else Path(path))
+                target = None if path is None else str((cwd / path) if not os.path.isabs(path) else Path(path))
                 target = None if target is None else os.path.normpath(target)
                 expected = {"written": [target] if target else [], "format": kind}
                 if [os.path.normpath(w) for w in written] != expected["written"]:
@@ -419,7 +470,9 @@ def stream_collect(ctx, drv, cli, ws, n):
             ctx.cov["disagreements_checked"] += 1
             ctx.violations.append({
                 "what": f"paroxython collect: {problem}",
-                "replay": {"kind": "collect", "argv": argv, "sibling_taxonomy": (ws.root / "taxonomy.tsv").exists(),
+                "replay": {"kind": "collect", "argv": argv, "cwd": os.path.relpath(cwd, ws.root), "root": str(ws.root),
+                           "taxonomy_files": sibling_files,
+                           "decoy": (ws.root / "progs" / "mytaxo.tsv").exists(),
                            "impl": {"exit": str(impl["exit"]), "exc": impl["exc"], "written": [os.path.relpath(w, ws.root) for w in written]},
                            "model": model, "spec": expected},
                 "signature": None,
@@ -435,9 +488,9 @@ def stream_collect(ctx, drv, cli, ws, n):
 BANNER = re.compile(r"\A(?:Using database '[^\n]*'\.\n|Using pipeline '[^\n]*'\.\n|Using an empty pipeline\.\n)+")
 
 
-def library_recommend(ws, plan, rp_mod):
+def library_recommend(ws, plan, rp_mod, cwd=None):
     """What the plan prescribes: Recommendations(...) on the plan's database, pipeline, base, cost, title format."""
-    with in_dir(ws.root):
+    with in_dir(cwd or ws.root):
         commands = [] if plan["pipe"] is None else literal_eval(Path(plan["pipe"]).read_text())
         out, err = io.StringIO(), io.StringIO()
         with contextlib.redirect_stdout(out), contextlib.redirect_stderr(err):
@@ -458,8 +511,23 @@ def stream_recommend(ctx, drv, cli, ws, n):
     import paroxython.recommend_programs as rp
 
     known = {}
-    for i in range(n):
+    root = ws.root
+    # always, first: RELATIVE -o / --pipe / --base paths (they are relative to the current directory, not to
+    # DB_PATH's parent) with a database lying elsewhere, from several current directories
+    fixed = []
+    for cwd, db, rel in ((root, "deep/x_db.json", ""), (root / "deep", "x_db.json", "../"), (root / "out", "../deep/x_db.json", "../"),
+                         (root / "deep", "../progs_db.json", "../"), (root / "deep", str(root / "progs_db.json"), "../")):
+        fixed += [
+            (cwd, db, {"--pipe": rel + "custom_pipe.py"}),
+            (cwd, db, {"--pipe": rel + "custom_pipe.py", "--output": rel + "out/fixed.md"}),
+            (cwd, db, {"--pipe": rel + "base_pipe.py", "--base": rel + "base2", "--output": "STDOUT"}),
+            (cwd, db, {"--pipe": rel + "base_pipe.py", "--base": rel + "base1", "--output": rel + "out/fixed.md"}),
+            (cwd, db, {"--pipe": "[]", "--output": "fixed_here.md"}),
+            (cwd, db, {"--output": "stdout"}),
+        ]
+    for i in range(len(fixed) + n):
         r = ctx.rng
+        cwd = root
         # which databases exist
         for name in ("progs_db.json", "progs-db.json", "progs_db.json-db.json", "other.json", "deep/x_db.json", "deep/er/db.json", "deep/_db.json", "a_b-db.json"):
             p = ws.root / name
@@ -497,14 +565,20 @@ def stream_recommend(ctx, drv, cli, ws, n):
                                         "{absolute}/{path}", "plain", "{nope}"])
         if opts.get("--pipe") == "base_pipe.py" and "--base" not in opts:
             opts["--base"] = "base1"
+        if i < len(fixed):
+            cwd, db, opts = fixed[i][0], fixed[i][1], dict(fixed[i][2])
+            for name in ("deep/x_db.json", "progs_db.json"):
+                (root / name).write_text(ws.db_text)
+            (root / "progs_pipe.py").write_text(PIPELINES["progs_pipe.py"])
+            ctx.dist("recommend:fixed-relative-paths")
         argv = ["recommend"] + argv_of(r, opts, db)
         args = docopt_args(cr, "recommend", argv[1:])
-        model = drv.call("c18.model.recommend", args=args, world=world_of(ws.root, ws.root))
+        model = drv.call("c18.model.recommend", args=args, world=world_of(ws.root, cwd))
         before = snapshot(ws.root)
-        impl = run_cli(cli, argv, ws.root)
+        impl = run_cli(cli, argv, cwd)
         after = snapshot(ws.root)
         written = sorted(k for k in after if before.get(k) != after[k])
-        ctx.count("recommend", json.dumps([argv, sorted(os.path.relpath(k, ws.root) for k in before if k.endswith((".json", "pipe.py")))]),
+        ctx.count("recommend", json.dumps([argv, str(cwd), sorted(os.path.relpath(k, ws.root) for k in before if k.endswith((".json", "pipe.py")))]),
                   nontrivial="plan" in model)
         problem, sig, expected = None, None, None
         if "exit" in model:
@@ -523,7 +597,7 @@ def stream_recommend(ctx, drv, cli, ws, n):
             ctx.dist("recommend:pipe:" + ("empty" if plan["pipe"] is None else "file"))
             ctx.dist("recommend:db:" + ("looked-up" if plan["announced_db"] else "given"))
             try:
-                expected = library_recommend(ws, plan, rp)
+                expected = library_recommend(ws, plan, rp, cwd)
             except BaseException as exc:  # noqa
                 expected = {"exc": type(exc).__name__}
             if "exc" in expected:
@@ -540,7 +614,7 @@ def stream_recommend(ctx, drv, cli, ws, n):
                 elif plan["messages_on_stderr"] and not BANNER.match(impl["stderr"]):
                     problem = "STDOUT mode: the 'Using …' messages are not on stderr"
             else:
-                target = os.path.normpath(str((ws.root / plan["out"]) if not os.path.isabs(plan["out"]) else Path(plan["out"])))
+                target = os.path.normpath(str((cwd / plan["out"]) if not os.path.isabs(plan["out"]) else Path(plan["out"])))
                 if [os.path.normpath(w) for w in written] != [target]:
                     problem = f"files written {written}, plan says {target}"
                 elif Path(target).read_text() != expected["markdown"]:
@@ -562,7 +636,7 @@ def stream_recommend(ctx, drv, cli, ws, n):
             ctx.violations.append({
                 "what": f"paroxython recommend: {problem}",
                 "name": sig.split(":")[1] if sig else None,
-                "replay": {"kind": "recommend", "argv": argv,
+                "replay": {"kind": "recommend", "argv": argv, "cwd": os.path.relpath(cwd, ws.root), "root": str(ws.root),
                            "present": sorted(os.path.relpath(k, ws.root) for k in before if k.endswith((".json", "pipe.py"))),
                            "impl": {"exit": str(impl["exit"]), "exc": impl["exc"], "stdout": impl["stdout"][:600],
                                     "written": [os.path.relpath(w, ws.root) for w in written]},
@@ -737,6 +811,10 @@ def replay(ctx, path):
             ws = Workspace(root, "ws", mdb)
             if kind == "collect":
                 ws.set_sibling_taxonomy(obj.get("sibling_taxonomy", False))
+                for rel in obj.get("taxonomy_files", []):
+                    (ws.root / rel).write_text(SIBLING_TAXONOMY)
+                if obj.get("decoy"):
+                    (ws.root / "progs" / "mytaxo.tsv").write_text(SIBLING_TAXONOMY)
             for rel in obj.get("present", []):
                 p = ws.root / rel
                 p.parent.mkdir(parents=True, exist_ok=True)
@@ -752,8 +830,11 @@ def replay(ctx, path):
                         p.unlink()
             mod = importlib.import_module(f"paroxython.cli_{kind}")
             args = docopt_args(mod, kind, obj["argv"][1:])
-            model = drv.call(f"c18.model.{kind}", args=args, world=world_of(ws.root, ws.root))
-            impl = run_cli(cli, obj["argv"], ws.root)
+            cwd = Path(os.path.normpath(ws.root / obj.get("cwd", ".")))
+            if obj.get("root"):  # absolute paths of the run that stored the case -> this scratch tree
+                obj["argv"] = [a.replace(obj["root"], str(ws.root)) for a in obj["argv"]]
+            model = drv.call(f"c18.model.{kind}", args=args, world=world_of(ws.root, cwd))
+            impl = run_cli(cli, obj["argv"], cwd)
             print("argv  :", obj["argv"])
             print("impl  :", {"exit": str(impl["exit"]), "exc": impl["exc"], "stdout": impl["stdout"][:400]})
             print("model :", model)
@@ -761,7 +842,7 @@ def replay(ctx, path):
             if spec is None and kind == "recommend" and "plan" in model:
                 rp = importlib.import_module("paroxython.recommend_programs")
                 try:
-                    spec = {k: v[:400] for k, v in library_recommend(ws, model["plan"], rp).items()}
+                    spec = {k: v[:400] for k, v in library_recommend(ws, model["plan"], rp, cwd).items()}
                 except BaseException as exc:  # noqa
                     spec = {"exc": type(exc).__name__}
             print("spec  :", spec, "(what the library call named by the plan produces)")
